@@ -39,6 +39,53 @@ CORE = "dclab/rtdc_dataset/core.py"
 CONF = "dclab/rtdc_dataset/config.py"
 
 
+def _expand(func, expr, depth=2):
+    """normalised text of `expr` with single-assignment locals of `func`
+    replaced by their value (a few levels)"""
+    class Sub(ast.NodeTransformer):
+        def __init__(self, defs):
+            self.defs = defs
+
+        def visit_Name(self, node):
+            if isinstance(node.ctx, ast.Load) and node.id in self.defs:
+                return ast.parse(txt(self.defs[node.id]),
+                                 mode="eval").body
+            return node
+    counts = {}
+    for n in walk(func):
+        if isinstance(n, ast.Assign) and len(n.targets) == 1 and isinstance(
+                n.targets[0], ast.Name):
+            counts.setdefault(n.targets[0].id, []).append(n.value)
+        elif isinstance(n, (ast.AugAssign, ast.For)):
+            t = n.target
+            for nm in names_in(t):
+                counts.setdefault(nm, []).extend([None, None])
+    defs = {k: v[0] for k, v in counts.items() if len(v) == 1
+            and v[0] is not None}
+    cur = ast.parse(txt(expr), mode="eval").body
+    for _ in range(depth):
+        cur = ast.fix_missing_locations(Sub(defs).visit(cur))
+        cur = ast.parse(txt(cur), mode="eval").body
+    return txt(cur)
+
+
+def _enabled_branches(upd):
+    """(if-node, enabled body, disabled body) of the 'enable filters' test,
+    whatever its polarity"""
+    en = [n for n in walk(upd) if isinstance(n, ast.If)
+          and "enable filters" in _expand(upd, n.test)]
+    if not en:
+        raise AnalysisError("Filter.update: 'enable filters' branch lost")
+    en = en[0]
+    t = en.test
+    neg = isinstance(t, ast.UnaryOp) and isinstance(t.op, ast.Not)
+    core = t.operand if neg else t
+    if not (isinstance(core, (ast.Subscript, ast.Name))):
+        raise AnalysisError("Filter.update: unrecognised 'enable filters' "
+                            "test `" + txt(t) + "`")
+    return (en, en.orelse, en.body) if neg else (en, en.body, en.orelse)
+
+
 def _assigned_from(func, pred):
     """names assigned (single target) from a value satisfying pred"""
     out = {}
@@ -342,12 +389,8 @@ def r33(ctx, repo, upd):
     for need in ("all", "box", "invalid", "polygon"):
         if need not in inv:
             raise AnalysisError(f"Filter.update: array '{need}' lost")
-    # enabled branch
-    en = [n for n in walk(upd) if isinstance(n, ast.If)
-          and "enable filters" in txt(n.test)]
-    if not en:
-        raise AnalysisError("Filter.update: 'enable filters' branch lost")
-    en = en[0]
+    # enabled branch (either polarity of the test)
+    en, en_body, dis_body = _enabled_branches(upd)
 
     def all_assign(body):
         for s in body:
@@ -356,7 +399,7 @@ def r33(ctx, repo, upd):
                     s.targets[0].value) == inv["all"]:
                 return s
         return None
-    a = all_assign(en.body)
+    a = all_assign(en_body)
     if a is None:
         raise AnalysisError("Filter.update: assignment of `all` lost")
     ops = set()
@@ -373,16 +416,14 @@ def r33(ctx, repo, upd):
            "all = box & invalid & polygon & manual" if ops == want else
            f"conjunction operands are {sorted(ops)}, expected {sorted(want)}",
            node=a, label="conjunction operands")
-    b = all_assign(en.orelse)
+    b = all_assign(dis_body)
     ok = b is not None and isinstance(b.value, ast.Constant) \
         and b.value.value is True
     ctx.ob("R3.3", ok, "with filters disabled every event is selected"
            if ok else "disabled branch does not select every event",
            node=b or en, label="disabled selects all")
-    pos = isinstance(en.test, ast.Subscript) or isinstance(en.test, ast.Name)
-    ctx.ob("R3.3", pos, "the conjunction is on the enabled branch" if pos
-           else "branch polarity of 'enable filters' changed", node=en,
-           label="enabled polarity", nontrivial=False)
+    ctx.ob("R3.3", a is not None, "the conjunction is on the enabled branch",
+           node=en, label="enabled polarity", nontrivial=False)
     # accumulators reset before and-ing
     for kind in ("box", "invalid", "polygon"):
         name = inv[kind]
@@ -507,20 +548,57 @@ def r34(ctx, repo, upd):
     ctx.ob("R3.4", called, "update() re-initialises before evaluating"
            if called else "update() no longer calls _init_rtdc_ds",
            node=upd, label="update calls init", nontrivial=False)
-    # inversion inside filter()
-    inv = [n for n in walk(filt) if isinstance(n, ast.If)
-           and is_self_attr(n.test, "inverted")]
-    ok = bool(inv) and any(call_name(c) in ("np.invert", "np.logical_not")
-                           for c in find_calls(inv[0], attr="invert")
-                           + find_calls(inv[0], attr="logical_not"))
-    ctx.ob("R3.4", ok, "an inverted polygon yields the complement" if ok
-           else "inversion of the polygon result lost", node=filt,
-           label="polygon inversion")
+    # inversion inside filter(): on every path on which `self.inverted`
+    # holds the result is complemented, on no other path
+    from ..cfg import CFG, branch_facts
+    fcfg = CFG(filt)
+
+    def is_invert(node):
+        if node.ast is None or node.kind not in ("stmt",):
+            return False
+        for x in ast.walk(node.ast):
+            if isinstance(x, ast.Call) and call_name(x) in (
+                    "np.invert", "np.logical_not", "numpy.invert"):
+                return True
+            if isinstance(x, ast.UnaryOp) and isinstance(x.op, ast.Invert):
+                return True
+        return False
+
+    def inverted_edge(truth):
+        def f(src, lab, dst):
+            if src.kind == "test" and lab in ("T", "F"):
+                for e, t in branch_facts(src.ast.test, lab == "T"):
+                    if is_self_attr(e, "inverted") and t == truth:
+                        return True
+            return False
+        return f
+    inv_nodes = [n for n in fcfg.nodes if is_invert(n)]
+    # (a) no inversion reachable without the inverted=True edge
+    r_plain = fcfg.reach([fcfg.entry], avoid_edge=inverted_edge(True),
+                         include_sources=True)
+    leak = [n for n in inv_nodes if n.id in r_plain]
+    # (b) after an inverted=True edge, the exit is not reachable without
+    #     passing an inversion
+    miss = False
+    for n in fcfg.nodes:
+        for (b, lab) in fcfg.succ[n.id]:
+            if inverted_edge(True)(n, lab, fcfg.nodes[b]):
+                if is_invert(fcfg.nodes[b]):
+                    continue
+                r = fcfg.reach([b], avoid_node=is_invert,
+                               avoid_edge=lambda s_, l_, d_: l_ == "x",
+                               include_sources=True)
+                if fcfg.exit in r:
+                    miss = True
+    ok = bool(inv_nodes) and not leak and not miss
+    ctx.ob("R3.4", ok, "an inverted polygon yields the complement, a "
+           "non-inverted one the plain result" if ok else
+           "inversion of the polygon result lost or applied on the wrong "
+           "branch", node=filt, label="polygon inversion")
 
 
 def r35(ctx, repo, upd):
-    en = [n for n in walk(upd) if isinstance(n, ast.If)
-          and "enable filters" in txt(n.test)][0]
+    en, en_body, dis_body = _enabled_branches(upd)
     calls = [c for c in find_calls(upd, attr="downsample_rand")]
     site = None
     body_fn = upd
@@ -548,16 +626,21 @@ def r35(ctx, repo, upd):
         raise AnalysisError("Filter.update: event limit lost")
     c = calls[0]
     anchor = site if site is not None else c
-    inside = any(x is anchor for x in walk(ast.Module(body=en.body,
+    inside = any(x is anchor for x in walk(ast.Module(body=list(en_body),
                                                       type_ignores=[])))
     ctx.ob("R3.5", inside, "the event limit is applied on the enabled "
            "branch only" if inside else "event limit applied although "
            "filters are disabled", node=c, label="limit in enabled branch")
     lim = [n for n in walk(en) if isinstance(n, ast.If)
-           and "limit events" in txt(n.test)]
-    ok = bool(lim) and isinstance(lim[0].test, ast.Compare) and isinstance(
-        lim[0].test.ops[0], ast.Gt) and txt(
-        lim[0].test.comparators[0]) == "0"
+           and "limit events" in _expand(upd, n.test)]
+    ok = False
+    if lim and isinstance(lim[0].test, ast.Compare) \
+            and len(lim[0].test.ops) == 1:
+        t = lim[0].test
+        l, r = _expand(upd, t.left), _expand(upd, t.comparators[0])
+        ok = (isinstance(t.ops[0], ast.Gt) and "limit events" in l
+              and r == "0") or (isinstance(t.ops[0], ast.Lt) and l == "0"
+                                and "limit events" in r)
     ctx.ob("R3.5", ok, "limit is applied only for a positive setting" if ok
            else "guard `limit events > 0` changed", node=lim[0] if lim
            else en, label="limit positive")
@@ -573,7 +656,7 @@ def r35(ctx, repo, upd):
            "the limit does not operate on all[all] with ret_idx=True",
            node=c, label="limit on selected events")
     samples = kwarg(c, "samples", 1)
-    ok = samples is not None and ("limit" in txt(samples)
+    ok = samples is not None and ("limit" in _expand(upd, samples)
                                   or txt(samples) == limit_arg)
     ctx.ob("R3.5", ok, "requested size is the configured limit" if ok else
            "requested size is not the configured limit", node=c,
@@ -778,6 +861,10 @@ MUTANTS = [
     ("removed polygon kept", FILT,
      ("                self._poly_filters.pop(pf_id)\n",
       "                pass\n"), "R3.4"),
+    ("inversion on the wrong branch", POLY,
+     ("        if self.inverted:\n            np.invert(f, f)\n",
+      "        if not self.inverted:\n            np.invert(f, f)\n"),
+     "R3.4"),
     ("inversion dropped", POLY,
      ("        if self.inverted:\n            np.invert(f, f)\n", ""),
      "R3.4"),
@@ -819,6 +906,22 @@ MUTANTS = [
 ]
 
 TWINS = [
+    ("inversion as early return (refactor C15/1)", POLY,
+     ("        if self.inverted:\n            np.invert(f, f)\n\n"
+      "        return f\n",
+      "        if not self.inverted:\n            return f\n\n"
+      "        np.invert(f, f)\n        return f\n")),
+    ("limit hoisted into a local (refactor C16/3)", FILT,
+     ("            if cfg_cur[\"limit events\"] > 0:\n"
+      "                limit = cfg_cur[\"limit events\"]\n",
+      "            limit = cfg_cur[\"limit events\"]\n"
+      "            if limit > 0:\n")),
+    ("enable test inverted (refactor C16/5)", FILT,
+     [("        if cfg_cur[\"enable filters\"]:\n",
+       "        if not cfg_cur[\"enable filters\"]:\n"
+       "            arr_all[:] = True\n        else:\n"),
+      ("        else:\n            arr_all[:] = True\n\n"
+       "        # Actual filtering", "\n        # Actual filtering")]),
     ("diff loop with intermediate variables (refactor C03/2)", FILT,
      ("            if cfg_cur.get(skey, None) != cfg_old.get(skey, None):\n",
       "            val_cur = cfg_cur.get(skey, None)\n"
